@@ -150,3 +150,31 @@ Print Assumptions c16_converges.
 Theorem c16_quiet_example : quietb (d_s fk_r6) = true.
 Proof. exact fk_quiet. Qed.
 Print Assumptions c16_quiet_example.
+
+(* c16_converges in the words of the property statement: from ANY starting kernel (knorm), across ANY history of API
+   calls, failed commands, retries and resyncs (reachF), after an ApplyUpdates that returns (does not panic after 10
+   failed attempts) followed by an ApplyDeletions that leave no pending deletion (every destroy it needed succeeded;
+   with MaxIPSetDeletionsPerIteration = 1 that is the last of the rescheduled runs), every Felix-owned name is in the
+   kernel exactly as desired: desired sets have exactly the desired type/parameters and members, no other owned set
+   remains. *)
+Theorem c16_converges_after_apply : forall s k D obs budget s1 k1 ev1 tries s2 k2 ev2 rs n,
+  reachF s k D ->
+  apply_updates true obs budget k s = Some (s1, k1, ev1) -> s_panic s1 = false ->
+  apply_deletions tries k1 s1 = Some (s2, k2, ev2, rs) -> pending_del s2 = ∅ ->
+  owned n = true -> k2 !! n = want_of D n.
+Proof. exact converges_after_apply. Qed.
+Print Assumptions c16_converges_after_apply.
+
+(* Second finding (key temp-set-inherits-delete-failed, replayed on the real code by the correspondence run): on the
+   code as it is (s_fix2 = false) a set whose destroy was refused and that becomes desired again with other parameters
+   leaves its old incarnation behind under a temporary name that inherits the DeleteFailed flag: `fl_checks` runs the
+   model on that history and states that the final ApplyDeletions attempts nothing, the temporary set is in the kernel
+   and the oracle's `converged` is false.  (c16_converges does not apply: the flagged set is a pending deletion.) *)
+Theorem c16_flags_refuted : fl_checks = true.
+Proof. exact fl_checks_true. Qed.
+Print Assumptions c16_flags_refuted.
+
+(* With fixes/C16-temp-set-flags.patch (s_fix2 = true) the same history ends converged. *)
+Theorem c16_flags_repaired_example : fl_fixed_checks = true.
+Proof. exact fl_fixed_checks_true. Qed.
+Print Assumptions c16_flags_repaired_example.
